@@ -134,6 +134,13 @@ func init() {
 				in.goPanic("nil certificate store dereferenced by goxmldsig")
 			}
 		}
+		if many, ok := e.attr("vx-many"); ok && many.Const && many.Str == "1" {
+			// more than 1000 elements precede the signature: goxmldsig's bounded search gives up
+			in.X.noteAssumption("goxmldsig's signature search visits at most 1000 elements and fails with etreeutils.ErrTraversalLimit beyond that (scenario attribute vx-many stands for such a message)")
+			in.event("dsig: traversal limit reached before the signature")
+			g := in.P.Pkgs[dsigPkg+"/etreeutils"].Var("ErrTraversalLimit")
+			return Tuple{nilPtr, in.load(&Ptr{Obj: in.global(g)})}
+		}
 		if signer, ok := e.attr("vx-signer"); ok && signer.Const && sig == "valid" {
 			return in.dsigValidateV2(call, el, e, signer.Str)
 		}
